@@ -158,7 +158,13 @@ func runTextField(w *harness.W, hc hcase, sample bool) {
 		switch op {
 		case "ins0", "ins1", "ins2":
 			g := ins[op[3]-'0']
-			ev = vaxis.Key{Keycode: []rune(g)[0], Text: g}
+			k := vaxis.Key{Keycode: []rune(g)[0], Text: g}
+			if alt {
+				// typed with Num Lock / Caps Lock on (a host speaking the
+				// kitty protocol reports the lock states with every key)
+				k.Modifiers = []vaxis.ModifierMask{vaxis.ModNumLock, vaxis.ModCapsLock, vaxis.ModNumLock | vaxis.ModCapsLock}[len(m.g)%3]
+			}
+			ev = k
 			m.insert([]string{g})
 		case "paste":
 			// a paste holding a multi-codepoint grapheme (3 runes, one cluster)
@@ -332,7 +338,11 @@ func runTextInput(w *harness.W, e *tiEnv, hc hcase, sample bool) {
 		switch op {
 		case "ins0", "ins1", "ins2":
 			g := ins[op[3]-'0']
-			evs = []vaxis.Event{vaxis.Key{Keycode: []rune(g)[0], Text: g}}
+			k := vaxis.Key{Keycode: []rune(g)[0], Text: g}
+			if alt {
+				k.Modifiers = []vaxis.ModifierMask{vaxis.ModNumLock, vaxis.ModCapsLock, vaxis.ModNumLock | vaxis.ModCapsLock}[len(m.g)%3]
+			}
+			evs = []vaxis.Event{k}
 			m.insert([]string{g})
 		case "paste":
 			// pasted text arrives as one key event per cluster; one of them is a
